@@ -121,6 +121,7 @@ type Contract struct {
 	HasOwn      bool
 	CbInvs      map[string][]*Clause // site NAME: callback-invariant ... (kept by the callbacks passed to NAME)
 	SiteAssumes map[string][]*Clause // site NAME: assume ... (about the result of the call; part of a declared assumption)
+	Broken      string               // a clause could not be generated (see the message); the function is reported as not generated
 }
 
 // HasProp: the contract is listed for property p, or one of its clauses is labelled with p ([p:label]).
@@ -988,11 +989,29 @@ func (g *genCtx) generate(cf *ContractFile) (string, error) {
 						l3 = append(l3, nameType{id, g.typeStr(lv.Type())})
 						continue
 					}
+					matched := false
 					for _, r := range results { // named results are variables of the body too
 						if r.name == id {
 							l3 = append(l3, r)
+							matched = true
 						}
 					}
+					isTP := false
+					if tps != nil {
+						for i := 0; i < tps.Len(); i++ {
+							if tps.At(i).Obj().Name() == id {
+								isTP = true
+							}
+						}
+					}
+					if !matched && !isTP && c.Broken == "" {
+						// the clause names a variable that the function does not have (any more): only this contract is
+						// affected - its function is reported as not generated - instead of the whole load failing
+						c.Broken = fmt.Sprintf("clause [%s] of %s (line %d) refers to %q, which is neither a parameter, a result, a local variable of the function nor a package-level name", cl.Tag(), c.Target, cl.Line, id)
+					}
+				}
+				if c.Broken != "" {
+					expr, pres, entries = "true", nil, nil
 				}
 			case "cbrequires", "cbensures":
 				// parameters of the callback; they join level 1 (state at the call)
